@@ -1,7 +1,18 @@
 ---- MODULE MC_FilterChain ----
 EXTENDS FilterChain
-\* predictors only accompany LZW and Flate (7.4.4.4)
-LayersAll == {<<"AHx", 0>>, <<"A85", 0>>, <<"RL", 0>>,
-              <<"LZW", 0>>, <<"LZW", 12>>, <<"LZW", 2>>, <<"Fl", 0>>, <<"Fl", 1>>, <<"Fl", 2>>, <<"Fl", 15>>, <<"Fl", 10>>}
-LayersCore == {<<"AHx", 0>>, <<"A85", 0>>, <<"RL", 0>>, <<"LZW", 0>>, <<"LZW", 12>>, <<"Fl", 0>>, <<"Fl", 2>>, <<"Fl", 15>>, <<"Fl", 1>>}
+\* <<filter, predictor, earlychange>>; predictors only accompany LZW and Flate (7.4.4.4), /EarlyChange only LZW,
+\* CCITTFax always carries /K -1 (the realiser adds /Columns)
+LayersAll == {<<"AHx", 0, -1>>, <<"A85", 0, -1>>, <<"RL", 0, -1>>, <<"CCF", 0, -1>>,
+              <<"LZW", 0, -1>>, <<"LZW", 0, 0>>, <<"LZW", 0, 1>>, <<"LZW", 12, -1>>, <<"LZW", 12, 0>>, <<"LZW", 2, -1>>,
+              <<"Fl", 0, -1>>, <<"Fl", 1, -1>>, <<"Fl", 2, -1>>, <<"Fl", 15, -1>>, <<"Fl", 10, -1>>}
+LayersCore == {<<"AHx", 0, -1>>, <<"A85", 0, -1>>, <<"RL", 0, -1>>, <<"CCF", 0, -1>>,
+               <<"LZW", 0, -1>>, <<"LZW", 0, 0>>, <<"LZW", 12, 0>>, <<"LZW", 12, -1>>,
+               <<"Fl", 0, -1>>, <<"Fl", 2, -1>>, <<"Fl", 15, -1>>}
+\* three stages: the kinds whose parameters can leak from one stage into another, around a parameterless one
+LayersLeak == {<<"AHx", 0, -1>>, <<"LZW", 0, -1>>, <<"LZW", 0, 0>>, <<"LZW", 12, 1>>, <<"Fl", 15, -1>>, <<"CCF", 0, -1>>}
+\* quick tier, three stages: [/LZW /AHx /LZW] and its relatives
+LayersLeakSmall == {<<"AHx", 0, -1>>, <<"LZW", 0, -1>>, <<"LZW", 0, 0>>}
+\* thorough tier, three stages over the kinds of the first pass
+LayersWide == {<<"AHx", 0, -1>>, <<"A85", 0, -1>>, <<"RL", 0, -1>>, <<"LZW", 0, -1>>, <<"LZW", 12, -1>>, <<"LZW", 2, -1>>,
+               <<"Fl", 0, -1>>, <<"Fl", 1, -1>>, <<"Fl", 2, -1>>, <<"Fl", 15, -1>>, <<"Fl", 10, -1>>}
 ====
